@@ -65,6 +65,11 @@ func assumptions(id string) []string {
 var expectedProbes = map[string][]string{
 	"C19": {"gen_parsed", "short_reads_delivered", "encoding_over_4096", "decode_error_returned"},
 	"C01": {"parse_tree", "short_reads_delivered", "parse_error_located", "cut_inside_token"},
+	"C06": {"hit_branch_taken", "restart_limit_reached", "ratecounter_carried_over", "penaltybox_carried_over"},
+	"C08": {"timeout_fired", "call_depth_guard_reached", "restart_limit_reached", "include_missing_module", "runtime_error_reported", "tester_factory_returned", "tester_error_returned"},
+	"C11": {"map_with_2plus_keys_iterated", "permutation_checked", "diagnostics_reported"},
+	"C18": {"requests_overlapped", "history_linearizable", "plugin_timeout_fired", "model_validation_case"},
+	"C20": {"concurrent_api_requests", "fetch_error_reported"},
 }
 
 func zeroProbes(id, tier string, got map[string]int) []string {
